@@ -37,11 +37,12 @@ type c19Case struct {
 func genC19Case(r *rand.Rand, uniq string) c19Case {
 	c := c19Case{container: []string{"csv", "xlsx"}[r.Intn(2)], sheet: "HeroConf" + uniq, location: []string{"", "Asia/Shanghai", "America/New_York"}[r.Intn(3)]}
 	g := &sgen{r: r}
-	// a vertical-map sheet so that merger sources contribute disjoint keys
+	// a vertical map (merger sources contribute disjoint keys) or a vertical list (merged lists are appended book by
+	// book: both paths must append in the same order)
 	var gs genSheetOut
 	for {
 		gs = g.sheet(c.sheet, 1+r.Intn(4), 1+r.Intn(4))
-		if gs.vkind == "map" {
+		if gs.vkind == "map" || gs.vkind == "list" {
 			break
 		}
 	}
